@@ -2276,7 +2276,11 @@ mod fields_ext {
                 _ => {}
             }
             Ok(match ty {
-                syn::Type::Tuple(syn::TypeTuple { elems, .. }) => {
+                // For a single field, any other tuple type than a 1-tuple is the type to convert
+                // from/into by itself.
+                syn::Type::Tuple(syn::TypeTuple { elems, .. })
+                    if self.len() != 1 || elems.len() == 1 =>
+                {
                     Either::Left(elems.iter())
                 }
                 other => Either::Right(iter::once(other)),
